@@ -15,6 +15,10 @@ def import_stl(path : str):
     if is_stl_ascii(path):
         return _import_stl_ascii(path)
     else:
+        with open(path, 'rb') as f:
+            header = f.read(84)
+        if len(header)==84 and struct.unpack("<I", header[80:84])[0]==0:
+            return RawMeshData() # no triangle in the file (stl_reader aborts the interpreter on such files)
         vertices, faces =  stl_reader.read(path)
         out = RawMeshData()
         out.vertices += list(vertices)
